@@ -326,17 +326,20 @@ class MTVRPEnv(RL4COEnvBase):
             next_loc = gather_by_index(td["locs"], next_node)
             dist = get_distance(curr_loc, next_loc)
 
+            # open routes (O) do not travel back to the depot: neither length nor time is spent
+            back_open = td["open_route"].squeeze(-1) & (next_node == 0)
+            dist = dist * ~back_open
+
             # distance limit (L)
-            curr_length = curr_length + dist * ~(
-                td["open_route"].squeeze(-1) & (next_node == 0)
-            )  # do not count back to depot for open route
+            curr_length = curr_length + dist
             assert torch.all(
                 curr_length <= td["distance_limit"].squeeze(-1)
             ), "Route exceeds distance limit"
             curr_length[next_node == 0] = 0.0  # reset length for depot
 
             curr_time = torch.max(
-                curr_time + dist, gather_by_index(td["time_windows"], next_node)[..., 0]
+                (curr_time + dist) * ~back_open,
+                gather_by_index(td["time_windows"], next_node)[..., 0],
             )
             assert torch.all(
                 curr_time <= gather_by_index(td["time_windows"], next_node)[..., 1]
